@@ -364,6 +364,35 @@ static void vf_sample(char const *fmt, ...)
 static inline int vf_want_sample(void) { return vf.nsamples < 8; }
 
 /* ---------------------------------------------------------------- driver */
+/* ------------------------------------------------------------------ read-only operands
+ * A `const` operand may live in storage that cannot be written at all (a static const table in .rodata or flash, a read-only mapping, an
+ * object shared with other threads).  A routine that modifies such an operand temporarily and restores it before returning is invisible to
+ * every snapshot comparison made after the call (seeded change C09-L: a_real_mulTT transposes its const operand Y in place, multiplies, and
+ * transposes it back).  vf_ro_dup() gives a copy of an operand in an anonymous mapping that is PROT_READ while the library runs: any write
+ * is a SIGSEGV with the library frame on the stack.  The copy ENDS at the end of the mapping, so a read past the operand faults as well.
+ * vf_ro_pick(): deterministic 1-in-`every` choice per (case, call index), so that a replay of the case makes the same choices. */
+static inline int vf_ro_pick(unsigned every)
+{
+    static uint64_t last_case = UINT64_MAX;
+    static unsigned idx;
+    if (vf.case_no != last_case) { last_case = vf.case_no; idx = 0; }
+    return (vf_hash64(vf.case_no * 0x9E3779B97F4A7C15ULL + 0x726f, idx++) >> 33) % every == 0;
+}
+static inline void *vf_ro_dup(void const *src, size_t n)
+{
+    size_t const pg = 4096, len = ((n + pg - 1) / pg + (n ? 0 : 1)) * pg;
+    unsigned char *m = (unsigned char *)mmap(NULL, len, PROT_READ | PROT_WRITE, MAP_PRIVATE | MAP_ANONYMOUS, -1, 0);
+    if (m == MAP_FAILED) { fprintf(stderr, "vf: mmap failed\n"); exit(2); }
+    if (n) { memcpy(m + len - n, src, n); }
+    if (mprotect(m, len, PROT_READ)) { fprintf(stderr, "vf: mprotect failed\n"); exit(2); }
+    return m + len - n;
+}
+static inline void vf_ro_free(void *p, size_t n)
+{
+    size_t const pg = 4096, len = ((n + pg - 1) / pg + (n ? 0 : 1)) * pg;
+    munmap((unsigned char *)p + n - len, len);
+}
+
 static uint64_t vf_ncases(int tier);
 static void vf_case(uint64_t case_no, vf_rng *r);
 #ifdef VF_HAVE_INIT
